@@ -17,7 +17,7 @@ Extraction "model.ml"
   Packets.tunnel_auth_request Packets.channel_request Packets.receive_payload
   Packets.handshake_response Packets.tunnel_response Packets.tunnel_auth_response
   Packets.channel_response Packets.channel_close_response Packets.data_packet
-  Processor.run Processor.consumed Processor.wired
+  Processor.run Processor.consumed Processor.resolve_dials Processor.tstate0 Processor.wired
   Wire.decode_packet Wire.decode_handshake_response Wire.decode_tunnel_response
   Wire.decode_tunnel_auth_response Wire.decode_channel_response Wire.decode_data
   TunnelOrder.feeds TunnelOrder.mon0
